@@ -144,7 +144,7 @@ add("C40", "c_misc",
     note="")
 add("C42", "c_misc",
     [T("TestC42", 20000, 200000, env=BUBBLE)],
-    rule="dcs.Plain with a fake dialer: 0..5 candidate addresses, latencies {0,1,2,3,5,10,50 ms} with ties, outcomes success / dial error / handshake-write failure, each honouring or ignoring cancellation (late completion), optional caller cancel; Primary/MediaOnly/CDN, obfuscated or not. non-trivial = n>=2 and (>=2 dials established or one established after the resolver returned); distinct by plan",
+    rule="dcs.Plain with a fake dialer: 0..5 candidate addresses, latencies {0,1,2,3,5,10,50 ms} with ties, outcomes success / dial error / handshake-write failure (the error value drawn from: plain, wrapping context.Canceled / context.DeadlineExceeded / os.ErrDeadlineExceeded / io.EOF, *net.OpError - while the caller's context is alive), each honouring or ignoring cancellation (late completion), optional caller cancel; Primary/MediaOnly/CDN, obfuscated or not. non-trivial = n>=2 and (>=2 dials established or one established after the resolver returned); distinct by plan",
     technique="PBT on virtual time (rapid + testing/synctest) with a resource-accounting oracle",
     text="After return and quiescence: exactly one of (conn, err); a returned conn is the only established connection still open; on error none is open and, when all failed, the error contains every failure; no resolver goroutine remains.",
     note="Completion order of equal latencies is the scheduler's; the oracle is order-independent.")
@@ -174,9 +174,9 @@ add("C18", "c_transport",
 add("C19", "c_transport",
     [T("TestC19", 4000, 40000), T("TestC19Handshake", 8000, 80000, env=BUBBLE)],
     pre=["TestC19Regression_write_over_65535", "TestC19Regression_write_after_refused_write", "TestC19Known"],
-    rule="write sizes from {0,1,16383,16384,65534,65535,65536,65537,131071,1 MiB,4 MiB} and uniform, 1..6 writes, read buffers 1..128 KiB, two FakeTLS peers and the reference record parser on the wire; handshakes against a reference server hello with right secret/random, wrong secret, wrong random, flipped digest/body bit, zero digest, 1..17 extra handshake records. non-trivial = some write > 65535 or a handshake with a wrong digest; distinct by sizes / variant",
+    rule="write sizes from {0,1,16383,16384,65534,65535,65536,65537,131071,1 MiB,4 MiB} and uniform, 1..6 writes, in 1/4 of the cases with the connection refusing every write (0 bytes, an error) during some of them, read buffers 1..128 KiB, two FakeTLS peers and the reference record parser on the wire; handshakes against a reference server hello with right secret/random, wrong secret, wrong random, flipped digest/body bit, zero digest, 1..17 extra handshake records. non-trivial = some write > 65535 or a handshake with a wrong digest; distinct by sizes / variant",
     technique="round-trip PBT (rapid) + reference TLS record reader and reference HMAC digest",
-    text="Reader's byte stream equals the concatenated writes; every record's length field equals its actual length <= 65535; the handshake succeeds iff the digest is right.",
+    text="Reader's byte stream equals the concatenated writes (for a refused write: exactly the bytes Write reported as written); every record's length field equals its actual length <= 65535; the handshake succeeds iff the digest is right.",
     note="")
 
 
@@ -314,7 +314,7 @@ add("C31", "c_session",
     level="fault_enumeration",
     rule="pairs of old/new session.Data (DC option lists of 0..2500 entries: files from ~1 KB to ~500 KB, new smaller/equal/larger than old), 12 pairs in quick and 120 in thorough derived from VERIF_SEED; per pair (1) a reference strace run of a helper process performing Loader.Save, then one run per traced system call touching the session directory with SIGKILL injected at its entry, (1b, every second pair) the same for a storage that starts empty - look for a session (none), store the old one, replace it by the new one on one FileStorage value; up to the marker between the two stores the directory may hold no session or the complete old one, after it the complete old or new one - (2) simulated crash states from the recorded trace: every prefix, the last write applied for 0, 1, n/2, n-1 bytes, and a power-loss model dropping all or half of the data not yet fsynced while completed renames persist. non-trivial = crash point after the first mutating system call and up to the last one, or any power-loss state; distinct by (pair, crash point)",
     technique="crash-point enumeration by system-call fault injection (strace inject=SIGKILL) + trace-driven file-system model; oracle Loader.Load == old or new",
-    text="Every enumerated crash state must load as the complete old or the complete new session. The real-kill part is exhaustive over the system calls of the save for each generated pair; the simulated part is a stated, conservative file-system model, not a kernel.",
+    text="Every enumerated crash state must load as the complete old or the complete new session, and the restarted client must be able to go on from it: an undisturbed save of a next session (shorter, every third time longer) over the directory as the crash left it must store exactly that session. The real-kill part is exhaustive over the system calls of the save for each generated pair; the simulated part is a stated, conservative file-system model, not a kernel.",
     note="Power-loss model: data written after the last fsync of a file may be lost entirely or partly; renames are durable. Directory-entry durability is not modelled (either outcome is acceptable to the oracle).",
     assumptions=["strace is available", "a SIGKILLed process leaves page-cache contents intact (process-crash model)"])
 
@@ -343,7 +343,7 @@ add("C21", "c_tl",
     fuzz=[dict(name="FuzzC21", seconds=120)],
     rule="all 2600 constructors of tg / mt / e2e (TestC21Sweep covers every constructor N times per run; TestC21 draws them at random), values built by reflection over struct fields (optional groups present with p=1/2, shared flag bits, zero-valued present fields, nested interfaces from the class constructor sets, vectors 0..3, depth budget 4); safety: mutated encodings and raw bytes through five entry points (constructor Decode, tmap.New+Decode, class decoder, DecodeBare, a foreign type); preallocation: vector count words rewritten up to 2^31-1; deep nesting: per type cycle a child process decodes the deepest chain that fits a 10 MiB gzip payload / 16 MiB frame (quick: 3 cycles, thorough: all 57). non-trivial = value has an optional group present or a nested interface / non-empty input / claimed count > 1024 / every deep case; distinct by value or input",
     technique="reflection-driven round-trip PBT (rapid) + mutation-based safety search with an allocation-delta oracle + child-process probes for process-fatal outcomes + native fuzzing (thorough)",
-    text="Encode->Decode gives an equal value and byte-identical re-encoding through the constructor map, tmap and the class decoder; decoding mutated/raw bytes never panics and allocation stays within a stated multiple of the input plus (count mod 1024) elements; deep chains must not kill the process (21 cycles are listed known findings).",
+    text="Encode->Decode gives an equal value and byte-identical re-encoding (the re-encoding written into a used buffer with dirty spare capacity) through the constructor map, tmap and the class decoder; decoding mutated/raw bytes never panics and allocation stays within a stated multiple of the input plus (count mod 1024) elements; deep chains must not kill the process (21 cycles are listed known findings).",
     note="Known finding: unbounded decoder recursion (stack overflow) for 21 RichText/PageBlock cycles - not repairable minimally (generated decoders).",
     assumptions=["values sampled per constructor, not all values"])
 add("C22", "c_tl",
